@@ -32,11 +32,12 @@ size_t GLEN; char GWC; char GIC;
                     : (s)[5] == 0 ? (size_t)5 : (s)[6] == 0 ? (size_t)6 : (s)[7] == 0 ? (size_t)7 : (size_t)8)
 #define XML_EQ(a, b) ((a) == (b))
 /* ASCII-case-insensitive equality: equal, or the same letter in different case (differ exactly in bit 5 and are letters) */
-#define XML_CIEQ(a, b) ((a) == (b) || ((((a) ^ (b)) == 32) && ((a) | 32) >= 97 && ((a) | 32) <= 122))
-/* the first i (<= 7) bytes of the input at `base` equal s[0..i) under EQ */
-#define XML_PFX(slf, base, s, i, EQ) ( ((i) <= 0 || EQ(XML_AT(slf, (base) + 0), (s)[0])) && ((i) <= 1 || EQ(XML_AT(slf, (base) + 1), (s)[1])) \
-  && ((i) <= 2 || EQ(XML_AT(slf, (base) + 2), (s)[2])) && ((i) <= 3 || EQ(XML_AT(slf, (base) + 3), (s)[3])) && ((i) <= 4 || EQ(XML_AT(slf, (base) + 4), (s)[4])) \
-  && ((i) <= 5 || EQ(XML_AT(slf, (base) + 5), (s)[5])) && ((i) <= 6 || EQ(XML_AT(slf, (base) + 6), (s)[6])) )
+#define XML_CIEQ(a, b) (((a) == (b)) | ((((a) ^ (b)) == 32) & (((a) | 32) >= 97) & (((a) | 32) <= 122)))
+/* the first i (<= 7) bytes of the input at `base` equal s[0..i) under EQ. Combined with the NON-short-circuit | and & (measured here and in
+ * iora_sv_find.h: chained && / || around dereferences nest conditionals and multiply the formula); a byte beyond i is read but masked */
+#define XML_PFX(slf, base, s, i, EQ) ( (((i) <= 0) | EQ(XML_AT(slf, (base) + 0), (s)[0])) & (((i) <= 1) | EQ(XML_AT(slf, (base) + 1), (s)[1])) \
+  & (((i) <= 2) | EQ(XML_AT(slf, (base) + 2), (s)[2])) & (((i) <= 3) | EQ(XML_AT(slf, (base) + 3), (s)[3])) & (((i) <= 4) | EQ(XML_AT(slf, (base) + 4), (s)[4])) \
+  & (((i) <= 5) | EQ(XML_AT(slf, (base) + 5), (s)[5])) & (((i) <= 6) | EQ(XML_AT(slf, (base) + 6), (s)[6])) )
 /* the whole C string s occurs at `base` */
 #define XML_MATCH(slf, base, s, EQ) ((base) <= (slf)->_input.n && XML_SLEN(s) <= (slf)->_input.n - (base) && XML_PFX(slf, base, s, XML_SLEN(s), EQ))
 /* word boundary demanded by matchWordCaseInsensitive: a byte is present at k and it is white space, '>' or '[' */
